@@ -353,6 +353,18 @@ def probe_digests() -> dict:
             read = DR.g_read if api == "generic" else DR.r_read
             out[f"{api}-{cls}-parse"] = hashlib.sha256(
                 repr(read(fixed_stream(cls, seq), "flat")).encode()).hexdigest()
+    # namespace declarations: one statement (no container order involved), several bindings
+    binds = [("ex", "http://a/"), ("b", "http://b#"), ("c", "http://c/"), ("", "urn:x"),
+             ("zz", "http://zz/")]
+    for api in ("generic", "rdflib"):
+        for cls, seq in (("triple", S3[:1]), ("quad", S4[:1])):
+            opts = DR.make_options(cls, (8, 3, 1), 250, True, generalized=False, rdf_star=False,
+                                   ns=True)
+            if api == "generic":
+                data = DR.g_write(seq, cls, opts, "stream_frames_sink", bindings=binds)
+            else:
+                data = DR.r_write(seq, cls, opts, "graph_serialize_stream", bindings=binds)
+            out[f"{api}-{cls}-namespaces"] = hashlib.sha256(data).hexdigest()
     return out
 
 
